@@ -36,7 +36,7 @@ def run(c):
     wd = stats.get("scenarios_with_watchdog", 0)
     if wd:
         c.notes.append("%d of %d scenarios needed the watchdog: an Enqueue call was still blocked 1.4 s after its 100 ms semaphore "
-                       "timeout (datasemaphore.Acquire has no timer, C30 / finding F10); not a C15 matter, the call was unblocked by "
+                       "timeout (the behaviour of datasemaphore.Acquire before the repair of finding F10, property C30); not a C15 matter, the call was unblocked by "
                        "stopping the processor and the recorded trace was validated like the others" % (wd, runs))
     c.guard("scenarios_without_watchdog", runs - wd)
     r = gsp_util.validate_many(c, "gsp", "ProcessorTrace", trace, parallel=W, lines_per_piece=c.pick(6000, 12000))
